@@ -29,7 +29,7 @@ fn any_origin() -> OsuScoreOrigin {
 }
 
 //@ obl: id=U7.accuracy.osu harness=u7_accuracy_osu props=C09 tier=quick kind=proof
-//@ fns: OsuScoreState::accuracy, OsuScoreState::total_hits, NoComboState::accuracy
+//@ fns: OsuScoreState::accuracy, OsuScoreState::total_hits (the generator's NoComboState::accuracy is under its own function contract: U7.osu.nocombo_accuracy.contract)
 //@ bound: loop-free; all counts <= 2^20 incl. all-zero; all three score origins with symbolic maxima
 //@ clause: accuracy is never NaN, finite and >= 0 - every zero denominator is guarded (all-zero state gives 0); no u32 overflow
 #[kani::proof]
@@ -46,16 +46,6 @@ fn u7_accuracy_osu() {
     };
     let origin = any_origin();
     assert!(good(s.accuracy(origin)), "C09 osu accuracy is finite and non-negative");
-    let n = NoComboState {
-        n300: s.n300,
-        n100: s.n100,
-        n50: s.n50,
-        misses: s.misses,
-        large_tick_hits: s.large_tick_hits,
-        small_tick_hits: s.small_tick_hits,
-        slider_end_hits: s.slider_end_hits,
-    };
-    assert!(good(n.accuracy(origin)), "C09 osu generator accuracy is finite and non-negative");
     if s.total_hits() == 0 {
         if let OsuScoreOrigin::Stable = origin {
             assert!(s.accuracy(origin) == 0.0, "C09 no hits: accuracy 0");
